@@ -2,6 +2,7 @@
 R-NOOP-ALIAS, R-SIGN-SLICE, R-SIBLING-GUARD."""
 from fractions import Fraction
 
+import elems as E
 import keys as K
 import mir
 import pertuple
@@ -1079,6 +1080,22 @@ def r_lon0_every_write(cx):
                     ks = set()
                     for x in terms:
                         ks |= _keys_deep(f, x)
+                        # parameters read by an operator-local helper (a `Setup::new(op)` struct of constants)
+                        def via_helper(y):
+                            if y[0] == "proj":
+                                b = y
+                                while b[0] in ("proj", "ref"):
+                                    b = b[1] if b[0] == "proj" else b[2]
+                                if b[0] == "call" and isinstance(b[1], str) and b[1].startswith("inner_op::") and cx.f.has_fn(b[1]):
+                                    try:
+                                        r = E.look_through_calls(f, y)
+                                    except Exception:
+                                        r = y
+                                    if r is not y and r is not None:
+                                        ks.update(_keys_deep(f, r))
+                                        return False
+                            return True
+                        mir.walk(x, via_helper)
                         # `op.params.real["lon_0"]`: an index projection with a literal key
                         mir.walk(x, lambda y: (ks.add(K._const_key(y[2][2])) if y[0] == "proj" and isinstance(y[2], tuple) and
                                                y[2][0] == "elem" and len(y[2]) > 2 and isinstance(y[2][2], tuple) and
